@@ -84,7 +84,7 @@ Section Decrypt.
       [mid] = version, connection IDs, token and Length field, whatever they are. *)
   Lemma flight_decryptable c helloLen plens k pn pnLen h fs lf pk dl ix rp (mid payload : list Z) largest :
     nth_error (flight c helloLen plens) k = Some (DG pn pnLen h fs lf pk dl ix rp) ->
-    1 <= pnLen <= 4 -> pn < 2 ^ 62 -> 0 <= c_ipn c < two64 ->
+    1 <= pnLen <= 4 -> pn < 2 ^ 62 -> 0 <= c_first c ->
     Z.of_nat (length payload) = pk - h - overhead -> payload <> [] ->
     4 <= pnLen + Z.of_nat (length payload) ->
     (largest = pn - 1 \/ (largest = -1 /\ pn <= 2 ^ (pnLen * 8) / 2)) ->
@@ -96,7 +96,6 @@ Section Decrypt.
     intros Hnth Hlen Hpn Hipn Hpl Hne Hmin Hlg.
     pose proof (flight_ok _ _ _ _ _ Hnth) as Hok. cbn [dg_ok] in Hok.
     destruct Hok as (Hpnv & _ & _ & Hlf & _).
-    destruct (initialPN_spec (c_ipn c) Hipn) as (_ & _ & Hr).
     assert (Hpn0 : 0 <= pn) by lia.
     split; [|lia].
     replace pnLen with (Z.of_nat (Z.to_nat pnLen)) at 5 by lia.
@@ -116,7 +115,7 @@ End Decrypt.
 (** * flight-level witnesses *)
 
 Definition wcfg (bk : bkind) (lens : list Z) (single : Z) (plans : list (Z * Z)) (udpMin : Z) : cfg :=
-  {| c_dcid := 8; c_scid := 0; c_ipn := 1; c_lens := lens; c_single := single; c_tokLen := 0;
+  {| c_dcid := 8; c_scid := 0; c_ipn := 1; c_first := 1; c_lens := lens; c_single := single; c_tokLen := 0;
      c_bk := bk; c_plans := plans; c_udpMin := udpMin; c_maxSize := 1280 |}.
 
 (** regression (was: every datagram followed entry 0 unless the builder was a
@@ -161,4 +160,14 @@ Proof. vm_compute. split; reflexivity. Qed.
 (** still open: a builder whose output does not fit is not refused *)
 Lemma builder_overshoot_witness :
   flight (wcfg BEx [] 1 [] 0) 1241 [1300] = [DG 1 1 19 [(0, 1241)] 1317 1335 1335 1 false].
+Proof. vm_compute. reflexivity. Qed.
+
+(** Chrome_146's numbering (InitPacketNumber 1, lengths {1,2}) on the connection re-created
+    after two Initials were sent with the first version: packet numbers 3 and 4, both in two
+    bytes (indexing the list from the connection's first number instead -- seeded change C10-c
+    -- would encode packet number 3 in one byte) *)
+Lemma recreated_witness :
+  flight {| c_dcid := 8; c_scid := 0; c_ipn := 1; c_first := 3; c_lens := [1; 2]; c_single := 0; c_tokLen := 0;
+            c_bk := BPass; c_plans := []; c_udpMin := 0; c_maxSize := 1280 |} 1734 [] =
+  [DG 3 2 20 [(0, 1240)] 1262 1280 1280 1 false; DG 4 2 20 [(1240, 494)] 517 535 1200 2 false].
 Proof. vm_compute. reflexivity. Qed.
